@@ -10,6 +10,7 @@ CONSTANTS
   CorruptInit = TRUE
   StaleFix = TRUE
   WithCrash = FALSE
+  CreateMayFail = TRUE
   WithBackend = TRUE
 INVARIANTS InvAccounting InvLogical InvWithinMax InvReserved InvQuiescentResv InvNoHang InvMapList InvDirEqualsIndex InvIndexedHasFile InvBacklog InvLruOrder InvWholeValue
 PROPERTIES EvictsOnlyUnderPressure
